@@ -22,6 +22,13 @@
     }
 #endif
 
+int PoissonSample(double mean, std::mt19937 & rng)
+  {
+  // std::poisson_distribution requires a strictly positive mean : an empty entry stays empty.
+  if(!(mean > 0)) return 0;
+  return std::poisson_distribution<int>(mean)(rng);
+  }
+
 std::vector<double> GenerateStochasticDistribution (std::vector<double> mesh_x, int n_meshes, int n_species, int seed)
   {
   /// generate a poisson distributed stochastic state that respects the floored total quantities of the input floating point state.
@@ -55,7 +62,7 @@ std::vector<double> GenerateStochasticDistribution (std::vector<double> mesh_x, 
     {
     if (mesh_x[i]<100)
       {
-      mesh_x_sto[i] = std::poisson_distribution<int>(mesh_x[i])(rng);
+      mesh_x_sto[i] = PoissonSample(mesh_x[i], rng);
       }
     else
       {
@@ -242,7 +249,7 @@ extern "C" int engineexport_initialize_grid (
       mesh_x.resize(n_meshes*n_species);
       for(size_t i=0; i<mesh_x.size(); i++)
         {
-        mesh_x[i] = static_cast<double>(std::poisson_distribution<int>(mesh_state[i])(rng));
+        mesh_x[i] = static_cast<double>(PoissonSample(mesh_state[i], rng));
         }
       }
     else if(CompareStr(init_state_processing, "floor"))
@@ -373,7 +380,7 @@ extern "C" int engineexport_initialize_graph (
       mesh_x.resize(n_meshes*n_species);
       for(size_t i=0; i<mesh_x.size(); i++)
         {
-        mesh_x[i] = static_cast<double>(std::poisson_distribution<int>(mesh_state[i])(rng));
+        mesh_x[i] = static_cast<double>(PoissonSample(mesh_state[i], rng));
         }
       }
     else if(CompareStr(init_state_processing, "floor"))
